@@ -29,6 +29,7 @@ import (
 	"sort"
 	"strings"
 	"sync/atomic"
+	"syscall"
 	"time"
 
 	"verif/harness/e2e"
@@ -55,6 +56,7 @@ type Resp struct {
 	Left     []string `json:"left,omitempty"` // goroutines in reader code still alive after the request
 	Body     string   `json:"body,omitempty"`
 	OpenRows int64    `json:"open_rows"`
+	Served   int64    `json:"served"`
 	Unsup    []string `json:"unsup,omitempty"`
 }
 
@@ -102,6 +104,21 @@ func preload(w *e2e.World) error {
 	if c, b := w.Push("POST", "/loki/api/v1/push", "application/json", []byte(body), nil); c != 204 {
 		return fmt.Errorf("preload logs: %d %s", c, b)
 	}
+	// two long streams (several 100-row batches of the getter): big2 all JSON, big with one non-JSON line early on
+	for _, app := range []string{"big", "big2"} {
+		var bv []string
+		for i := 0; i < 350; i++ {
+			line := fmt.Sprintf(`{\"lvl\":\"info\",\"n\":%d,\"msg\":\"b %d\"}`, i, i)
+			if app == "big" && i == 343 { // the newest lines come first (backward): the 7th row of the result
+				line = "this line is not json"
+			}
+			bv = append(bv, fmt.Sprintf(`["%d","%s"]`, int64(day0)*1e9+int64(i)*200e6, line))
+		}
+		body = `{"streams":[{"stream":{"app":"` + app + `","env":"load"},"values":[` + strings.Join(bv, ",") + `]}]}`
+		if c, b := w.Push("POST", "/loki/api/v1/push", "application/json", []byte(body), nil); c != 204 {
+			return fmt.Errorf("preload %s: %d %s", app, c, b)
+		}
+	}
 	// metric samples through the Loki values layout with a numeric third element
 	var mv []string
 	for i := 0; i < 30; i++ {
@@ -118,6 +135,19 @@ func preload(w *e2e.World) error {
 		return fmt.Errorf("preload traces: %d %s", c, b)
 	}
 	return nil
+}
+
+// goneWriter fails every Write once the request context is cancelled (what net/http does when the peer closed)
+type goneWriter struct {
+	http.ResponseWriter
+	ctx context.Context
+}
+
+func (g *goneWriter) Write(b []byte) (int, error) {
+	if g.ctx.Err() != nil {
+		return 0, syscall.EPIPE
+	}
+	return g.ResponseWriter.Write(b)
 }
 
 func serve() int {
@@ -153,6 +183,11 @@ func serve() int {
 			a.Err = fmt.Errorf("code: 210, DB::NetException: connection reset by peer")
 		case "slow_rows":
 			a.RowDelay = 3 * time.Millisecond
+		case "endless_rows":
+			// the database has far more rows than any limit: the request must stop reading once it has what it needs
+			if len(a.Rows) >= 100 {
+				a.Cycle = 50000000
+			}
 		}
 		return a, nil
 	}
@@ -175,6 +210,7 @@ func serve() int {
 				}
 			}
 			rs.OpenRows = atomic.LoadInt64(&w.SQL.Opened) - atomic.LoadInt64(&w.SQL.Closed)
+			rs.Served = atomic.LoadInt64(&w.SQL.Served)
 			rb, _ := json.Marshal(rs)
 			fmt.Fprintf(os.Stdout, "\n@@RESP@@%s\n", rb)
 			continue
@@ -192,6 +228,10 @@ func serve() int {
 		}
 		req.RequestURI = rq.URL
 		rw := httptest.NewRecorder()
+		var hw http.ResponseWriter = rw
+		if rq.AbortMs > 0 {
+			hw = &goneWriter{ResponseWriter: rw, ctx: ctx} // a client that went away: writes fail with EPIPE
+		}
 		done := make(chan struct{})
 		t0 := time.Now()
 		panicMsg := ""
@@ -205,7 +245,7 @@ func serve() int {
 				}
 				close(done)
 			}()
-			w.Reader.ServeHTTP(rw, req)
+			w.Reader.ServeHTTP(hw, req)
 		}()
 		if rq.AbortMs > 0 {
 			go func() {
@@ -298,8 +338,12 @@ func endpoints() []endpoint {
 	}
 }
 
-var paramClasses = []string{"valid", "absent", "empty", "zero", "negative", "reversed", "huge", "non_numeric", "float", "rfc3339"}
-var faultClasses = []string{"none", "query_err", "row_err_first", "row_err_mid", "client_abort"}
+var paramClasses = []string{"valid", "absent", "empty", "zero", "negative", "reversed", "huge", "non_numeric", "float", "rfc3339", "batch_multiple", "small"}
+var faultClasses = []string{"none", "query_err", "row_err_first", "row_err_mid", "client_abort", "endless_rows", "endless_rows_abort"}
+
+// queries whose result size is bounded by the limit parameter on the reader side (a stage runs in process, so the SQL
+// carries no LIMIT): only these may be combined with an endless row source without a client abort
+var limitBounded = map[string]bool{"big_json": true, "big_fmt": true, "big_json_err": true, "log_json": true, "log_fmt": true}
 
 var queryClasses = map[string]map[string]string{
 	"logql": {
@@ -307,6 +351,11 @@ var queryClasses = map[string]map[string]string{
 		"log_filter":   `{app=~"a.*"} |= "m" != "zz" |~ "m \\d"`,
 		"log_json":     `{app="a1"} | json | lvl="info" | n > 3`,
 		"log_fmt":      `{app="a2"} | logfmt | line_format "{{.n}}"`,
+		"big_log":      `{app="big2"}`,
+		"big_json":     `{app="big2"} | json`,
+		"big_json_err": `{app="big"} | json`,
+		"big_fmt":      `{app="big2"} | line_format "{{.msg}}"`,
+		"big_metric":   `sum by (app) (count_over_time({app="big2"} | json [10s]))`,
 		"metric_rate":  `rate({app="a1"}[5s])`,
 		"metric_agg":   `sum by (app) (count_over_time({env=~".+"}[10s]))`,
 		"metric_unw":   `sum_over_time({app="a1"} | json | unwrap n [10s]) by (app)`,
@@ -402,6 +451,16 @@ func paramValue(name, valid, class string, other map[string]string) (string, boo
 		return "1700000000.123456789", true
 	case "rfc3339":
 		return "2023-11-14T22:13:20Z", true
+	case "batch_multiple":
+		if name == "limit" {
+			return "200", true // exactly two batches of the getter
+		}
+		return valid, true
+	case "small":
+		if name == "limit" {
+			return "7", true
+		}
+		return valid, true
 	}
 	return valid, true
 }
@@ -553,6 +612,16 @@ func run(casesPath, outPath string, seed int64, nrandom int) int {
 		if c.Fault == "client_abort" {
 			r.Fault = "slow_rows"
 			r.AbortMs = 1 + rnd.Intn(20)
+		}
+		if c.Fault == "endless_rows_abort" {
+			if e.Lang != "logql" || !strings.HasPrefix(c.Query, "big_") && !limitBounded[c.Query] {
+				continue // an endless result needs a row-streaming endpoint
+			}
+			r.Fault = "endless_rows"
+			r.AbortMs = 5 + rnd.Intn(40)
+		}
+		if c.Fault == "endless_rows" && !(limitBounded[c.Query] && e.Name == "loki_query_range") {
+			continue
 		}
 		reqs = append(reqs, r)
 	}
